@@ -15,6 +15,8 @@ pub enum T {
     Int,
     Pair,
     Fun,
+    /// a data type with two constructors (critical pairs at it are lifted by shrinking)
+    Opt,
 }
 
 #[derive(Clone, Debug)]
@@ -33,6 +35,8 @@ pub enum P {
     Mu(u8, T, Rc<S>),
     Tup(Rc<P>, Rc<P>),
     CoCase(u8, u8, u8, Rc<S>),
+    No,
+    Yes(Rc<P>),
 }
 #[derive(Clone, Debug)]
 pub enum C {
@@ -40,6 +44,8 @@ pub enum C {
     MuT(u8, T, Rc<S>),
     Case(u8, u8, Rc<S>),
     Ap(Rc<P>, Rc<P>, Rc<C>),
+    /// case { No => s1, Yes(x) => s2 }
+    CaseOpt(u8, Rc<S>, Rc<S>),
 }
 
 pub const VARS: [&str; 2] = ["x", "y"];
@@ -64,6 +70,8 @@ impl Scope {
 
 pub struct Alphabet {
     pub types: Vec<T>,
+    /// `print` statements (the RV64 backend cannot compile them)
+    pub with_print: bool,
     pub with_if: bool,
     pub with_call: bool,
     pub with_exit: bool,
@@ -104,6 +112,9 @@ impl Enum {
                 }
             }
             for a in 1..=n - 2 {
+                if !self.alpha.with_print {
+                    break;
+                }
                 let ps = self.prods(T::Int, sc, a);
                 let ss = self.stmts(sc, n - 1 - a);
                 for p in ps.iter() {
@@ -197,6 +208,15 @@ impl Enum {
                 }
             }
         }
+        if t == T::Opt {
+            if n == 1 {
+                out.push(Rc::new(P::No));
+            } else {
+                for x in self.prods(T::Int, sc, n - 1).iter() {
+                    out.push(Rc::new(P::Yes(x.clone())));
+                }
+            }
+        }
         if n >= 4 {
             // mu k. s
             for k in 0..2u8 {
@@ -248,6 +268,19 @@ impl Enum {
                 }
             }
         }
+        if n >= 7 && t == T::Opt {
+            for x in 0..2u8 {
+                for a in 3..=n - 4 {
+                    let s1 = self.stmts(sc, a);
+                    let s2 = self.stmts(sc.bind_var(x, T::Int), n - 1 - a);
+                    for p in s1.iter() {
+                        for q in s2.iter() {
+                            out.push(Rc::new(C::CaseOpt(x, p.clone(), q.clone())));
+                        }
+                    }
+                }
+            }
+        }
         if n >= 4 && t == T::Fun {
             for a in 1..=n - 3 {
                 for b in 1..=n - 2 - a {
@@ -286,6 +319,7 @@ pub fn ty(t: T) -> Ty {
         T::Int => Ty::I64,
         T::Pair => Ty::Decl(id("Pair")),
         T::Fun => Ty::Decl(id("Fun2")),
+        T::Opt => Ty::Decl(id("Opt")),
     }
 }
 fn bind(name: &str, chi: Chirality, t: T) -> ContextBinding {
@@ -308,6 +342,8 @@ pub fn prod(p: &P) -> Term<Prd> {
         P::Sub(a, b) => Term::Op(Op { fst: Rc::new(prod(a)), op: BinOp::Sub, snd: Rc::new(prod(b)) }),
         P::Mu(k, t, s) => Term::Mu(Mu { prdcns: Prd, variable: id(COVARS[*k as usize]), statement: Rc::new(stmt(s)), ty: ty(*t) }),
         P::Tup(a, b) => Term::Xtor(Xtor { prdcns: Prd, name: id("Tup"), args: Arguments { entries: vec![Argument::Producer(prod(a)), Argument::Producer(prod(b))] }, ty: ty(T::Pair) }),
+        P::No => Term::Xtor(Xtor { prdcns: Prd, name: id("No"), args: Arguments { entries: vec![] }, ty: ty(T::Opt) }),
+        P::Yes(a) => Term::Xtor(Xtor { prdcns: Prd, name: id("Yes"), args: Arguments { entries: vec![Argument::Producer(prod(a))] }, ty: ty(T::Opt) }),
         P::CoCase(a, b, k, s) => Term::XCase(XCase {
             prdcns: Prd,
             clauses: vec![Clause {
@@ -334,6 +370,14 @@ pub fn cons(c: &C) -> Term<Cns> {
             }],
             ty: ty(T::Pair),
         }),
+        C::CaseOpt(x, s1, s2) => Term::XCase(XCase {
+            prdcns: Cns,
+            clauses: vec![
+                Clause { prdcns: Cns, xtor: id("No"), context: TypingContext { bindings: vec![] }, body: Rc::new(stmt(s1)) },
+                Clause { prdcns: Cns, xtor: id("Yes"), context: TypingContext { bindings: vec![bind(VARS[*x as usize], Chirality::Prd, T::Int)] }, body: Rc::new(stmt(s2)) },
+            ],
+            ty: ty(T::Opt),
+        }),
         C::Ap(a, b, k) => Term::Xtor(Xtor { prdcns: Cns, name: id("ap2"), args: Arguments { entries: vec![Argument::Producer(prod(a)), Argument::Producer(prod(b)), Argument::Consumer(cons(k))] }, ty: ty(T::Fun) }),
     }
 }
@@ -351,7 +395,13 @@ fn helper_g() -> Def {
 
 /// `def main(x: prd i64) { < mu k. BODY | mutilde y. println(y); exit y > }`
 pub fn program(body: &S) -> Prog {
-    let fin = S::Print(Rc::new(P::Var(1, T::Int)), Rc::new(S::Exit(Rc::new(P::Var(1, T::Int)))));
+    program_with(body, true)
+}
+
+/// `final_print = false`: the result is only returned (for the backend without printing).
+pub fn program_with(body: &S, final_print: bool) -> Prog {
+    let exit = S::Exit(Rc::new(P::Var(1, T::Int)));
+    let fin = if final_print { S::Print(Rc::new(P::Var(1, T::Int)), Rc::new(exit)) } else { exit };
     let top = S::Cut(T::Int, Rc::new(P::Mu(0, T::Int, Rc::new(body.clone()))), Rc::new(C::MuT(1, T::Int, Rc::new(fin))));
     let main = Def { name: id("main"), context: TypingContext { bindings: vec![bind("x", Chirality::Prd, T::Int)] }, body: stmt(&top) };
     let pair = TypeDeclaration { dat: Data, name: id("Pair"), xtors: vec![XtorSig { xtor: Data, name: id("Tup"), args: TypingContext { bindings: vec![bind("a", Chirality::Prd, T::Int), bind("b", Chirality::Prd, T::Int)] } }] };
@@ -360,7 +410,12 @@ pub fn program(body: &S) -> Prog {
         name: id("Fun2"),
         xtors: vec![XtorSig { xtor: Codata, name: id("ap2"), args: TypingContext { bindings: vec![bind("a", Chirality::Prd, T::Int), bind("b", Chirality::Prd, T::Int), bind("r", Chirality::Cns, T::Int)] } }],
     };
-    Prog { defs: vec![main, helper_g()], data_types: vec![pair], codata_types: vec![fun2], max_id: 0 }
+    let opt = TypeDeclaration {
+        dat: Data,
+        name: id("Opt"),
+        xtors: vec![XtorSig { xtor: Data, name: id("No"), args: TypingContext { bindings: vec![] } }, XtorSig { xtor: Data, name: id("Yes"), args: TypingContext { bindings: vec![bind("a", Chirality::Prd, T::Int)] } }],
+    };
+    Prog { defs: vec![main, helper_g()], data_types: vec![pair, opt], codata_types: vec![fun2], max_id: 0 }
 }
 
 pub fn initial_scope() -> Scope {
